@@ -644,6 +644,8 @@ class Interp:
         self.fname = fname
         self.uses_junk = False
         self.lets = []
+        self.home = None      # (source text, lo, hi) of the class the function lives in: private helpers are inlined from there
+        self.inline_depth = 0
         if kind in ("layout", "layout0"):
             self.this = ("var", recv)
         for n, v in params.items():
@@ -1119,7 +1121,44 @@ class Interp:
         raise TranslateError(f"{self.fname}: call form {fn[0]} is outside the vocabulary")
 
     def self_call(self, name, args):
-        """member function called on *this (explicitly through this-> or implicitly)"""
+        """member function called on *this (explicitly through this-> or implicitly); a member outside the vocabulary that is
+        defined in the same class (a helper introduced by a refactoring, the predicate of a new fast path …) is inlined"""
+        try:
+            return self.self_call_vocab(name, args)
+        except TranslateError as first:
+            if self.home is None or self.inline_depth >= 3:
+                raise
+            src, lo, hi = self.home
+            cands = []
+            for f in member_functions(src, lo, hi, name):
+                try:
+                    if len(param_names(f["params"])) == len(args) and all(k == "int" for _, k in param_names(f["params"])):
+                        cands.append(f)
+                except TranslateError:
+                    pass
+            bodies = {" ".join(f["body"].split()) for f in cands}
+            if len(bodies) != 1:
+                raise first
+            fn = cands[0]
+            child = self.fork()
+            child.inline_depth = self.inline_depth + 1
+            child.fname = f"{self.fname}>{name}"
+            for (n, _), a in zip(param_names(fn["params"]), args):
+                child.env[n] = ("int", self.as_int(self.eval(a)))
+            try:
+                ast = P(lex("{" + fn["body"] + "}", fn["line"])).block()
+                r = child.run(ast[1])
+            except TranslateError as inner:
+                raise TranslateError(f"{first} (and its definition at line {fn['line']} cannot be inlined: {inner})")
+            if r is None:
+                raise first
+            self.asserts, self.untranslated, self.lets = child.asserts, child.untranslated, child.lets
+            self.uses_junk = self.uses_junk or child.uses_junk
+            if self.kind in ("layout", "layout0"):
+                self.this = child.this
+            return r
+
+    def self_call_vocab(self, name, args):
         if self.kind in ("layout", "layout0"):
             return self.layout_method(self.this, name, args, ("*this", [], "whole"))
         if self.kind == "view":
@@ -1464,6 +1503,7 @@ def translate_one(lean_name, region, cpp, sel, kind):
             else:
                 raise TranslateError(f"{cpp}: parameter {n} of unsupported type")
         it = Interp(kind, recv, params, f"{rel}:{fn['line']}:{cpp}")
+        it.home = (src, lo, hi)
         toks = lex("{" + fn["body"] + "}", fn["line"])
         ast = P(toks).block()
         r = it.run(ast[1])
